@@ -377,6 +377,66 @@ func builtinsDoNotMutateOperandStorage(c *core.Ctx) {
 	if len(exposing) == 0 {
 		core.Undecidedf("no storage-exposing accessor found in package object")
 	}
+	// repository functions that sort / write a slice parameter in place
+	mutatesParam := map[*ssa.Function]map[int]bool{}
+	isSortCall := func(cal *ssa.Function) bool {
+		if cal == nil || cal.Pkg == nil || cal.Pkg.Pkg == nil {
+			return false
+		}
+		pth := cal.Pkg.Pkg.Path()
+		if pth != "sort" && pth != "slices" {
+			return false
+		}
+		return strings.HasPrefix(cal.Name(), "Sort") || strings.HasPrefix(cal.Name(), "Slice") || cal.Name() == "Stable" || cal.Name() == "Reverse"
+	}
+	all := repoFns(p)
+	for changed := true; changed; {
+		changed = false
+		for _, fn := range all {
+			for pi, prm := range fn.Params {
+				if _, isSl := prm.Type().Underlying().(*types.Slice); !isSl || mutatesParam[fn][pi] {
+					continue
+				}
+				hit := false
+				for _, b := range fn.Blocks {
+					for _, in := range b.Instrs {
+						switch x := in.(type) {
+						case ssa.CallInstruction:
+							cal := x.Common().StaticCallee()
+							for ai, a := range x.Common().Args {
+								if mi, ok := a.(*ssa.MakeInterface); ok {
+									a = mi.X
+								}
+								isPrm := false
+								for _, o := range core.Origins(a) {
+									if o == ssa.Value(prm) {
+										isPrm = true
+									}
+								}
+								if !isPrm {
+									continue
+								}
+								if (isSortCall(cal) && ai == 0) || (cal != nil && mutatesParam[cal][ai]) {
+									hit = true
+								}
+							}
+						case *ssa.Store:
+							if ia, ok := x.Addr.(*ssa.IndexAddr); ok && ia.X == ssa.Value(prm) {
+								hit = true
+							}
+						}
+					}
+				}
+				if hit {
+					if mutatesParam[fn] == nil {
+						mutatesParam[fn] = map[int]bool{}
+					}
+					mutatesParam[fn][pi] = true
+					changed = true
+				}
+			}
+		}
+	}
 	n := 0
 	for _, fn := range repoFns(p, "builtins", "modules/math", "modules/strings", "modules/rand", "modules/json") {
 		idx := 0
@@ -396,25 +456,22 @@ func builtinsDoNotMutateOperandStorage(c *core.Ctx) {
 				switch x := in.(type) {
 				case ssa.CallInstruction:
 					cal := x.Common().StaticCallee()
-					if cal == nil || cal.Pkg == nil || cal.Pkg.Pkg == nil {
+					if cal == nil {
 						continue
 					}
-					pth := cal.Pkg.Pkg.Path()
-					if (pth != "sort" && pth != "slices") || len(x.Common().Args) == 0 {
-						continue
+					for ai, a := range x.Common().Args {
+						if !(isSortCall(cal) && ai == 0) && !mutatesParam[cal][ai] {
+							continue
+						}
+						if mi, ok := a.(*ssa.MakeInterface); ok {
+							a = mi.X
+						}
+						n++
+						idx++
+						src := fromAccessor(a)
+						c.Check(src == "", core.SSAName(fn)+"|sort#"+itoa(idx)+"|on-own-storage", p.Pos(in.Pos()),
+							fn.Name()+" hands "+cal.Name()+" (which sorts or writes it in place) a slice of its own"+ifs(src != "", ": the slice comes from "+src+", which returns the operand's storage"))
 					}
-					if !strings.HasPrefix(cal.Name(), "Sort") && !strings.HasPrefix(cal.Name(), "Slice") && cal.Name() != "Stable" && cal.Name() != "Reverse" {
-						continue
-					}
-					a := x.Common().Args[0]
-					if mi, ok := a.(*ssa.MakeInterface); ok {
-						a = mi.X
-					}
-					n++
-					idx++
-					src := fromAccessor(a)
-					c.Check(src == "", core.SSAName(fn)+"|sort#"+itoa(idx)+"|on-own-storage", p.Pos(in.Pos()),
-						fn.Name()+" sorts a slice of its own"+ifs(src != "", ": the slice comes from "+src+", which returns the operand's storage"))
 				case *ssa.Store:
 					ia, ok := x.Addr.(*ssa.IndexAddr)
 					if !ok {
